@@ -336,7 +336,7 @@ func TestC09(t *testing.T) {
 		}
 		return
 	}
-	dl := vk.NewDeadline(vk.Pick(run, 10*time.Minute, 100*time.Minute))
+	dl := vk.NewDeadline(vk.Pick(run, 10*time.Minute, 45*time.Minute))
 	var cases []c09Case
 	plain := []string{"A", "A'", "B", "older", "error", "hang"}
 	plainReduced := []string{"A", "A'", "B", "error", "hang"}
